@@ -605,10 +605,16 @@ def cases(draw):
     integ = []
     for _ in range(ninteg):
         integ.append(draw(st.lists(pos if draw(st.integers(0, 2)) else val, min_size=n - 1, max_size=n - 1)))
+    int_vars = (nstate or ninteg) and draw(st.integers(0, 5)) == 0
+    if int_vars:
+        # whole-number variables handed over in integer arrays (counts, phase numbers)
+        state = [[float(round(x)) for x in v] for v in state]
+        integ = [[float(round(x)) for x in v] for v in integ]
     return {
         'tmpl': tmpl, 'gkind': grid['kind'],
         'glat': glat, 'glon': glon, 'galt': grid['galt'], 'gtime': grid['gtime'],
         'lat': lats, 'lon': lons, 'alt': alt, 'time': tim, 'state': state, 'integ': integ,
+        'int_vars': bool(int_vars),
     }
 
 
@@ -661,8 +667,9 @@ def call_gridder(case, with_vars=True):
         None if case['gtime'] is None else np.array(case['gtime'], dtype=float),
     )
     if with_vars:
-        state = (np.arange(n, dtype=float),) + tuple(np.array(v, dtype=float) for v in case['state'])
-        integ = (np.ones(n - 1),) + tuple(np.array(v, dtype=float) for v in case['integ'])
+        vt = np.int64 if case.get('int_vars') else float
+        state = (np.arange(n, dtype=float),) + tuple(np.array(v, dtype=float).astype(vt) for v in case['state'])
+        integ = (np.ones(n - 1),) + tuple(np.array(v, dtype=float).astype(vt) for v in case['integ'])
     else:
         state, integ = (), ()
     args = [
@@ -717,6 +724,8 @@ def classify(ctx, case, segs):
     if case['tmpl'] == 'antimeridian' and abs(case['lon'][-1] - case['lon'][0]) <= PI and len(case['lon']) > 2:
         flags.add('antimeridian_track_with_end_longitudes_within_pi')
     flags.add('grid.' + case['gkind'])
+    if case.get('int_vars'):
+        flags.add('vars.integer_dtype')
     flags.add('axes.alt' if case['alt'] is not None else 'axes.no_alt')
     flags.add('axes.time' if case['time'] is not None else 'axes.no_time')
     flags.add(f'vars.state{len(case["state"])}')
